@@ -859,9 +859,18 @@ impl<'a> MetaStoreUpdate<'a> {
                 if chunk.role_position == ChunkRolePosition::SecondChunkMaster {
                     return Ok(());
                 }
+                // If the masters were already moved to the first proxy by a former failover,
+                // both parts change their addresses now.
+                let all_parts_moved = chunk.role_position == ChunkRolePosition::FirstChunkMaster;
                 chunk.role_position = ChunkRolePosition::SecondChunkMaster;
 
-                for migrating_slot_range in chunk.migrating_slots[0].iter_mut() {
+                for migrating_slot_range in chunk
+                    .migrating_slots
+                    .iter_mut()
+                    .enumerate()
+                    .filter(|(part, _)| *part == 0 || all_parts_moved)
+                    .flat_map(|(_, slots)| slots.iter_mut())
+                {
                     migrating_slot_range.meta.epoch = new_epoch;
                     peer_position.insert((
                         migrating_slot_range.meta.src_chunk_index,
@@ -877,9 +886,16 @@ impl<'a> MetaStoreUpdate<'a> {
                 if chunk.role_position == ChunkRolePosition::FirstChunkMaster {
                     return Ok(());
                 }
+                let all_parts_moved = chunk.role_position == ChunkRolePosition::SecondChunkMaster;
                 chunk.role_position = ChunkRolePosition::FirstChunkMaster;
 
-                for migrating_slot_range in chunk.migrating_slots[1].iter_mut() {
+                for migrating_slot_range in chunk
+                    .migrating_slots
+                    .iter_mut()
+                    .enumerate()
+                    .filter(|(part, _)| *part == 1 || all_parts_moved)
+                    .flat_map(|(_, slots)| slots.iter_mut())
+                {
                     migrating_slot_range.meta.epoch = new_epoch;
                     peer_position.insert((
                         migrating_slot_range.meta.src_chunk_index,
